@@ -43,7 +43,7 @@ def run_case(ctx, rng, idx):
     exact_dyadic = mode == "initial" or rng.random() < 0.65  # False: dyadic interactions through the CLT approximation as well
     burn = rng.choice([0, 1, 10, 200])
     thin = rng.choice([0, 1, 10, 200])
-    seed = rng.randrange(2**31)
+    seed = rng.randrange(2**31) if idx % 16 != 3 else 0  # (0 is a seed like any other)
     n_samples = rng.randint(3, 4)
     labels = None
     init_edges = None
@@ -54,14 +54,21 @@ def run_case(ctx, rng, idx):
         rng.shuffle(labels)
         labels = labels[: rng.randint(3, 8)]
         big = idx in (0, 1) or (ctx.tier == "thorough" and idx % 400 == 8)
+        wide = idx == 4 or (ctx.tier == "thorough" and idx % 400 == 12)
         if big:
             ctx.event("big-initial-hypergraph")
             labels = [7 * i - 50 for i in range(rng.randint(25, 45))]
+        if wide:
+            # 70 nodes, hyperedges of 2 to 35 nodes, a chain that cannot move (no burn-in, no thinning): every hyperedge of the
+            # initial hypergraph must come back (normalisation constants of the large sizes are astronomically large)
+            ctx.event("wide-initial-hypergraph")
+            labels = list(range(70))
+            burn = thin = 0
         es = set()
-        for _ in range(40 if not big else 400):
-            s = min(rng.choice([2, 2, 3, 3, 4, 5]), len(labels))
+        for _ in range(40 if not (big or wide) else 400):
+            s = min(rng.choice([2, 2, 3, 3, 4, 5]) if not wide else rng.choice([2, 3, 5, 9, 17, 28, 35]), len(labels))
             es.add(frozenset(rng.sample(labels, s)))
-            if len(es) >= (rng.randint(2, 10) if not big else rng.randint(60, 120)):
+            if len(es) >= (rng.randint(2, 10) if not (big or wide) else rng.randint(60, 120) if big else 14):
                 break
         if len(es) < 2:
             return
